@@ -1,48 +1,8 @@
-(** C23: glue between the byte-level view and the event machine + printers (correspondence only). *)
+(** C23: printers (correspondence only). *)
 From Coq Require Import List NArith Bool String.
 From TwLib Require Import Show HttpClientBytes.
 From C23 Require Import Model.
 Import ListNotations.
-
-Inductive timing := DNever | DAtResponse | DAfter | DAfterLost.
-
-Fixpoint deliver_at_head (evs : list ev) : list ev :=
-  match evs with
-  | [] => []
-  | PHead c f :: r => PHead c f :: UDeliver :: r
-  | e :: r => e :: deliver_at_head r
-  end.
-
-(** events when deliverBody is called after the bytes [p1] (a prefix of [all]) have been fed *)
-Definition split_events (m p1 all : bytes) : list ev :=
-  let v1 := scan m p1 in
-  let v := scan m all in
-  match s_head v1 with
-  | HOk _ f =>
-      events_of p1 v1 ++ [UDeliver] ++
-      match s_end v1 with
-      | BOpen =>
-          let more := skipn (List.length (s_body v1)) (s_body v) in
-          (if is_nil more then [] else [PData more]) ++
-          match s_end v with
-          | BOpen => []
-          | BFinished => if immediate f then [] else [PFinish]
-          | BMalformed => [PBad]
-          end
-      | _ => []
-      end
-  | _ => deliver_at_head (events_of all v)
-  end.
-
-Definition ops (m p1 all : bytes) (t : timing) (lose : bool) : list ev :=
-  let full := events_of all (scan m all) in
-  let tl := if lose then [PLost] else [] in
-  match t with
-  | DNever => full ++ tl
-  | DAfterLost => full ++ tl ++ [UDeliver]
-  | DAtResponse => deliver_at_head full ++ tl
-  | DAfter => split_events m p1 all ++ tl
-  end.
 
 Local Open Scope string_scope.
 Definition show_fire (f : fire) : string :=
@@ -50,8 +10,9 @@ Definition show_fire (f : fire) : string :=
 Definition show_reason (r : reason) : string :=
   match r with RDone => "D" | RPotentialDataLoss => "P" | RFailed => "F" end.
 
-Definition run_show (c : bytes * bytes * bytes * timing * bool) : string :=
-  let '(m, p1, all, t, lose) := c in
-  let s := run (ops m p1 all t lose) in
+(** (method, deliveries before deliverBody, deliveries after, when, lost) *)
+Definition run_show (c : bytes * list bytes * list bytes * dtime * bool) : string :=
+  let '(m, cs1, cs2, t, lose) := c in
+  let s := run (session (eqb_bytes m HEAD) cs1 cs2 t lose) in
   String.concat "," (map show_fire (m_fired s)) ++ "|" ++ show_hex (m_delivered s) ++ "|"
   ++ String.concat "," (map show_reason (m_closed s)).
